@@ -1,9 +1,9 @@
 SPECIFICATION Spec
 CONSTANTS
-  Size = 3
-  Triggers = {"f1", "f2", "f3"}
+  Size = 1
+  Triggers = {"f1", "f2"}
   Spawned = {"h1"}
-  Closers = {"k1"}
+  Closers = {"k1", "k2"}
   MaxFail = 2
   MaxKill = 1
   Eager = FALSE
